@@ -133,10 +133,23 @@ func init() {
 					for _, v := range vecs {
 						c := c02Sub{Strategy: st, N: n, Inflight: v}
 						if st == "weighted_round_robin" {
-							c.Weights = make([]int, n)
-							for i := range c.Weights {
-								c.Weights[i] = 1 + (i*2)%3
+							// several weight shapes: mixed, heavy head, heavy tail (the rotation position matters for smooth WRR)
+							for shape := 0; shape < 3; shape++ {
+								cw := c
+								cw.Weights = make([]int, n)
+								for i := range cw.Weights {
+									switch {
+									case shape == 0:
+										cw.Weights[i] = 1 + (i*2)%3
+									case shape == 1 && i == 0, shape == 2 && i == n-1:
+										cw.Weights[i] = 7
+									default:
+										cw.Weights[i] = 1
+									}
+								}
+								cs = append(cs, cw)
 							}
+							continue
 						}
 						cs = append(cs, c)
 					}
@@ -148,8 +161,15 @@ func init() {
 			o.Need("served_ok", "no_backend_503", "subsets")
 			bes := newBackends(c.N)
 			defer closeBackends(bes)
+			rot := c.N // number of distinct rotation positions
+			if c.Weights != nil {
+				rot = 0
+				for _, w := range c.Weights {
+					rot += w
+				}
+			}
 			for mask := 0; mask < 1<<uint(c.N); mask++ {
-				for offset := 0; offset < c.N; offset++ {
+				for offset := 0; offset < rot; offset++ {
 					cfg := baseConfig(c.Strategy, bes)
 					for i := range cfg.Backends {
 						if c.Weights != nil {
